@@ -38,10 +38,20 @@ def Kind.stage : Kind → Stage
   | .fin => .finalization
   | .eh => .errorHandling
 
-/-- the `if` entry of a step: absent, a CEL expression that compiles, the empty string, an expression that does
-not compile, or something that is not a string -/
+/-- The static result type the CEL type checker computes for an expression (`ast.OutputType()` after `env.Check` in
+`cellib.CompileExpression`).  The variables `Subject`, `Payload` and `Request` are declared `dyn` and `Outputs` is a
+`map(string, dyn)`, so every attribute / index chain that ends in one of them (`Subject.Attributes.admin`,
+`Payload.x`, `Outputs.y`, `Request.URL.Path`) has the type `dyn`: what it yields is known at evaluation only. -/
+inductive CelTy
+  | bool | int | str | dyn | list (elem : CelTy) | map (val : CelTy)
+  deriving DecidableEq, Repr, Inhabited
+
+/-- The `if` entry of a step: absent; a non-empty string `src` — with what the CEL compiler says about it: `some t`,
+it parses and type-checks with the static result type `t`, or `none`, it does not compile (syntax error, undeclared
+variable or function, no matching overload) —; the empty string; or something that is not a string.  The text is part
+of the step (two steps that differ in the text of their `if` are different steps). -/
 inductive Cond
-  | absent | expr | empty | invalid | nonString
+  | absent | expr (src : String) (t : Option CelTy) | empty | nonString
   deriving DecidableEq, Repr, Inhabited
 
 /-- One entry of an `execute` / `on_error` list: a map.  Only the keys the factory looks at are kept; several of
@@ -86,10 +96,18 @@ def create (cat : Catalogue) (k : Kind) (id : String) (conditional : Bool) (cfg 
     | none => .ok ⟨k, id, conditional, none⟩
     | some t => if accepted.contains t then .ok ⟨k, id, conditional, some t⟩ else .error .badOverride
 
+/-- `cellib.CompileExpression` behind the parser and the type checker: the load-time check of the result type
+(`!reflect.DeepEqual(ast.OutputType(), cel.BoolType)` ⇒ "wanted bool, got …").  An expression is let through exactly
+when its static type is `bool`; `dyn` is **not** (at run time every value other than the bool `true` counts as false,
+so a `dyn`-typed guard would silently switch its mechanism off). -/
+def compiles : CelTy → Bool
+  | .bool => true
+  | _ => false
+
 /-- `getExecutionCondition`: `true` when the step is guarded by a (compiled) expression -/
 def condition : Cond → Except Reason Bool
   | .absent => .ok false
-  | .expr => .ok true
+  | .expr _ (some t) => if compiles t then .ok true else .error .badCondition
   | _ => .error .badCondition
 
 /-- `createHandler` after its key has been found and its order check has passed -/
